@@ -6,12 +6,18 @@ import ast
 import re
 
 from ..cfg import cfg_of
-from ..core import named_args, seq, AnalysisError, call_name, const_value, dotted, unparse, walk_no_nested
+from ..core import inline_locals, named_args, seq, AnalysisError, call_name, const_value, dotted, unparse, walk_no_nested
 from ..pattern import body_is, find, has
 from ..report import Ctx
 
 
+#: obligations whose failure contradicts the property (rule, construct pattern, why); every other failure is 'not recognised'
+POSITIVE: list[tuple[str, str, str]] = [
+]
+
+
 def run(ctx: Ctx) -> None:
+    ctx.positive_table = list(POSITIVE)
     prog = ctx.prog
     ctx.rule('C15.R1', 'atomic replace: the iteration file is never opened for writing; the writer fills a uniquely named temporary file in the same directory, '
              'closes it, and os.replace()s it onto the iteration file (a crash leaves the old complete file or the new complete file)')
@@ -48,8 +54,15 @@ def run(ctx: Ctx) -> None:
             prints = [c for c in walk_no_nested(f.node) if isinstance(c, ast.Call) and call_name(c) in ('print', 'write', 'writelines') and ('file=' in unparse(c) or call_name(c) != 'print')]
             in_with = {id(x) for x in ast.walk(withs[0])} if withs else set()
             ok = ok and all(id(p) in in_with for p in prints) and bool(prints)
-    ctx.add('C15.R1', 'iter-writer:atomic', ok, (f.file, mk[0].lineno if mk else f.line),
-            'unique temporary file in the same directory, written and closed, then os.replace onto the iteration file' if ok else 'the write-temporary-then-replace protocol is not in place', 'atomic')
+    early = None
+    if not ok and len(mk) == 1 and len(rep) == 1:
+        # the replacement happens while the temporary file is still open (inside the with block that writes it)
+        fdo = [c for c in opens if dotted(c.func) == 'os.fdopen']
+        withs_ = [n for n in walk_no_nested(f.node) if isinstance(n, ast.With) and any(it.context_expr in fdo for it in n.items)]
+        if len(withs_) == 1 and any(x is rep[0] for x in ast.walk(withs_[0])):
+            early = 'os.replace is called inside the with block that writes the temporary file: the iteration file is replaced by a file that is not yet flushed and closed - a process stopped at that moment leaves an empty or truncated file'
+    ctx.add('C15.R1', 'iter-writer:atomic', ok if (ok or early) else None, (f.file, mk[0].lineno if mk else f.line),
+            'unique temporary file in the same directory, written and closed, then os.replace onto the iteration file' if ok else (early or 'the write-temporary-then-replace protocol is not in the expected form'), 'atomic', positive=bool(early))
     # ---- R2
     loops = [n for n in walk_no_nested(f.node) if isinstance(n, ast.For) and unparse(n.iter) == 'enumerate(x)']
     ok = False
@@ -119,8 +132,14 @@ elif self.save_iterations:
             inside = {id(x) for x in ast.walk(best[0])} if len(best) == 1 else set()
             writes_inside = len(best) == 1 and all(id(c) in inside for c in rep + mk)
             ok = writes_inside and not best[0].orelse and len(guard[0].body) == 2
-    ctx.add('C15.R3', 'iter-writer:best-so-far', ok, (f.file, guard[0].lineno if guard else f.line),
-            'written only with finite derivatives and f >= bestIteration; the marker is raised to f on every write' if ok else 'the best-so-far discipline of the iteration file is broken (guard, marker update or finite-derivative test)', det)
+    unguarded = None
+    if not ok and len(guard) == 1:
+        # the file is written although the derivatives are not finite: the saving branch is not the alternative of the finiteness test
+        fin = [n for n in walk_no_nested(f.node) if isinstance(n, ast.If) and 'np.isfinite' in unparse(inline_locals(f.node, n.test)) and isinstance(inline_locals(f.node, n.test), ast.UnaryOp)]
+        if len(fin) == 1 and not any(x is guard[0] for st_ in fin[0].orelse for x in ast.walk(st_)) and not any(x is guard[0] for x in ast.walk(fin[0])):
+            unguarded = 'the iteration is saved whether or not the derivatives are finite (the saving branch is not the alternative of the finiteness test): a point with NaN / infinite derivatives can become the restart point'
+    ctx.add('C15.R3', 'iter-writer:best-so-far', ok if (ok or unguarded) else None, (f.file, guard[0].lineno if guard else f.line),
+            'written only with finite derivatives and f >= bestIteration; the marker is raised to f on every write' if ok else (unguarded or 'the best-so-far discipline of the iteration file is not in the expected form (guard, marker update, finite-derivative test)'), det, positive=bool(unguarded))
     e = B.methods['estimate']
     ce = cfg_of(e.node)
     reset = [n for n in walk_no_nested(e.node) if isinstance(n, ast.Assign) and unparse(n) == 'self.bestIteration = None']
@@ -153,8 +172,9 @@ elif self.save_iterations:
     ord_pack(sub, 'C15.R5')
     for o in sub.obligations:
         if o.construct == 'BIOGEME.change_init_values':
-            ctx.add('C15.R5', 'change_init_values:vector', o.ok, (o.file, o.line),
-                    'every loaded value (also 0.0) is copied, by name, into the vector the optimiser starts from' if o.ok else 'the loaded values are not all copied into free_betas_values (the guard must be `is not None`): ' + o.message, o.detail)
+            ctx.add('C15.R5', 'change_init_values:vector', o.ok if o.recognised else None, (o.file, o.line),
+                    'every loaded value (also 0.0) is copied, by name, into the vector the optimiser starts from' if o.ok else 'the loaded values do not all reach the vector the optimiser starts from: ' + o.message, o.detail,
+                    positive=o.recognised and not o.ok)
 
 
 def _is_alias(f, name: str, target: str) -> bool:
